@@ -48,8 +48,11 @@ def _walk(obj, seen, skip):
         return ("partial", _walk(obj.func, seen, skip), _walk(obj.args, seen, skip), _walk(obj.keywords, seen, skip))
     oid = id(obj)
     if oid in seen:
-        return ("ref", seen[oid])
-    seen[oid] = len(seen)
+        return ("ref", seen[oid][0])
+    # keep every visited object alive for the duration of the walk: temporaries (e.g. the tuples returned by
+    # verif_state()) must not be freed and their address reused by a later temporary, which would turn
+    # content into a bogus back-reference depending on the allocator's mood
+    seen[oid] = (len(seen), obj)
     if isinstance(obj, dict):
         return ("dict", type(obj).__name__, tuple((_walk(k, seen, skip), _walk(v, seen, skip)) for k, v in obj.items()))
     if isinstance(obj, (list, tuple, deque)):
